@@ -20,7 +20,7 @@ def run(ctx) -> None:
                     "ShellDisassembler.disassemble", "NullDisassembler.disassemble", "ProducerBuilder.build",
                     "ComposableProducer.process_file", "JASMConfig._load_sections")
     I = match_interp(ctx.p)
-    secs = [None, [".text"], [".plt.got", ".plt", ".init"], [".b", ".a", ".b"]]
+    secs = [None, [".text"], [".plt.got", ".plt", ".init"], [".b", ".a", ".b"], [".text._ZN3Foo3barEv", ".TEXT", "Weird$name "]]
     parser_classes = set()
     for sl in secs:
         cfg = {} if sl is None else {"sections": sl}
